@@ -22,6 +22,9 @@ claimed = {
  "C10": ("Deductive proof over a ghost reader/writer model (stream content, position, failure offset as ghost state): MultiProof.Read returns nil exactly when the stream holds exactly 576 more bytes, the reader does not fail, the 17 point chunks are valid canonical subgroup encodings and the scalar chunk is < r; IPAProof.Read likewise for 544 bytes; ReadPoint/ReadScalar proved against the decoders' contracts; any chunking a well-behaved reader may choose is covered because the contract of Read/ReadAtLeast is nondeterministic in n; Write returns an error whenever any of its Write calls fails and otherwise emits 32 bytes per field (call count and length proved).",
          "Assumed: io.ReadAtLeast / io.Reader / encoding/binary.Write contracts for well-behaved readers and writers (A4); the decoders' dependencies as in C06/C16; not proved: byte content of Write and the Write/Read round trip (only length, call count and fault propagation are), IPAProof.Equal/MultiProof.Equal.",
          "DESIGN.md §8 C10", "contract-based deductive verification with ghost stream state, discharged by z3/cvc5"),
+ "C13": ("Frame obligations: (1) for every function under an explicit contract, the deductive frame obligation 'every pre-existing heap cell outside the modifies clause is unchanged at every return' (SMT, all inputs, all aliasing) - this covers configuration tables, package-level constants and every caller slice/pointee not listed; (2) for every other non-test function of /repo the default frame contract (no write rooted at a package-level variable; parameters written through must be out-parameters or on the reviewed allow-list) is decided per store/call by a syntactic root-tracing argument over go/ssa with interprocedural summaries. The only allowed input mutations are the documented ones (BatchNormalize / CreateMultiProof re-normalising commitments, in-place field helpers).",
+         "Assumed: external (stdlib/gnark) methods without contract write only their receiver except the listed destination-argument methods; reflection/unsafe absent; the allow-list in sweep.go (reviewed, 9 entries); 'result is independent of preceding calls' follows only for functions whose effects are covered by these frames; generator and solvers.",
+         "DESIGN.md §8 C13", "contract-based deductive verification: modifies-clause frame obligations (SMT) plus default frame contracts discharged by syntactic root tracing over go/ssa"),
 }
 hooks=subprocess.run(['git','-C','/repo','log','--format=%H %s'],capture_output=True,text=True).stdout.strip().split('\n')
 hook_commits=[l.split()[0] for l in hooks if 'verif hook' in l]
